@@ -312,9 +312,10 @@ func runInterleave(r *lib.Run, gidx, idx int) {
 					continue // tag unknown to this version: no blockchain reads at all
 				}
 				// state reads go through a state reader that keeps reading the live store after the
-				// accessor returned: interleave those at the level of single database reads
+				// accessor returned, and blockNumber / blockHashAndNumber are a single accessor call:
+				// interleave those at the level of single database reads
 				level := "bc"
-				if stateMethod(q.M) {
+				if stateMethod(q.M) || family(q.M) == "head" {
 					level = "db"
 				}
 				r.Count("interleave_requests:"+ver+":"+level, 1)
